@@ -177,6 +177,19 @@ def probes(r, fmt, tier):
     for n in [31, 32, 33, 256]:
         P.append(("uname", n, X(uname=flat(n, b"u")), False))
         P.append(("gname", n, X(gname=flat(n, b"g")), False))
+    # two mechanisms in one header: the same value classes on an entry that also needs a long-name / long-link record
+    # (or an extended header), whose status is computed in several steps
+    for n in [32, 33]:
+        P.append(("uname", "%d+longpath" % n, X(path=deep(130), uname=flat(n, b"u")), False))
+        P.append(("gname", "%d+longpath" % n, X(path=deep(130), gname=flat(n, b"g")), False))
+        P.append(("uname", "%d+longlink" % n, X(mode=LNK | 0o777, size=0, body=b"", sym=flat(150, b"s"), uname=flat(n, b"u")), False))
+        P.append(("gname", "%d+longlink" % n, X(mode=LNK | 0o777, size=0, body=b"", sym=flat(150, b"s"), gname=flat(n, b"g")), False))
+    for v in [0o7777777, 0o10000000, 2**32, 2**62]:
+        P.append(("uid", "%d+longpath" % v, X(path=deep(130), uid=v), False))
+        P.append(("gid", "%d+longlink" % v, X(mode=LNK | 0o777, size=0, body=b"", sym=flat(150, b"s"), gid=v), False))
+    for v in [2**33 - 1, 2**33, -1]:
+        P.append(("mtime", "%d+longpath" % v, X(path=deep(130), mtime=(v, 0)), False))
+    P.append(("rdev", "(1, 0o10000000)+longpath", X(path=deep(130), mode=CHR | 0o600, size=0, body=b"", rdev=mkdev(1, 0o10000000), flags=16), False))
     # characters the header character set may not hold
     hi = b"caf\xe9\xff"
     P.append(("pathname", "bytes>=0x80", X(path=hi + b".txt"), False))
